@@ -113,6 +113,24 @@ class Worker:
                         raise
                     bad('after-set-raises', 'values', xl.to_abs(e))
                     break
+            # a SECOND extraction from the same original, whose input has been changed since the first one (the first
+            # extract keeps the old input), must reflect the current inputs
+            if ok and not any(d['case'] is case for d in out['dis']):
+                for akey, vals in W.cell_items(last['after'])[:1]:
+                    try:
+                        e_org.set_cell_value(W.addr(akey), 7)
+                        e2 = L.Evaluator(L.ModelCompiler.extract(model, list(focus)))
+                        exp = {tuple(k): v for k, v in W.cell_items(vals)}
+                        for target, key in targets:
+                            got = xl.to_abs(e2.evaluate(target))
+                            out['steps'] += 1
+                            if agrees(got, exp[key]) is False:
+                                bad('evaluate-second-extract-after-set', exp[key], got)
+                                break
+                    except BaseException as e:      # noqa
+                        if isinstance(e, (KeyboardInterrupt, SystemExit)):
+                            raise
+                        bad('second-extract-raises', 'values', xl.to_abs(e))
             if len(out['samples']) < 1 and len(focus) > 1:
                 out['samples'].append({'case': case, 'closure': [W.addr(k) for k in last['closure']],
                                        'expected': {W.addr(k): v for k, v in fresh.items()}})
